@@ -119,6 +119,9 @@ pub fn run(ctx: &Ctx) -> i32 {
             if rf.engine == "netsim" {
                 return replay_one(ctx, &crate::props::net::NetEngine { prop: d.prop }, &rf);
             }
+            if rf.engine == "rtpool" {
+                return replay_one(ctx, &crate::engines::rtpool::RtPoolEngine { prop: d.prop }, &rf);
+            }
             replay_one(ctx, &engine, &rf)
         }) {
             Ok(c) => c,
@@ -174,6 +177,26 @@ pub fn run(ctx: &Ctx) -> i32 {
         let wt = Weights { issue: 20, poll: 30, cancel: 2, dial_ok: 14, dial_fail: 0, hs_ok: 14, hs_fail: 0, release: 18, ready: 5, close: 9, takeover: 0, bg: 18, warm: 6, advance: 0, hold: 4, sleep: 0, h2_pct: 0, alpn_pct: 0, origins: 1 };
         total.merge(run_generated(ctx, &engine, "idle-list-pressure", move || case_strategy(wt, max_ops, cfg_small_idle_strategy()), ctx.cases(80_000, 2_000_000), 2000));
     }
+    if d.prop == "C03" || d.prop == "C02" || d.prop == "C05" || d.prop == "C15" {
+        // a protocol whose connections are never shareable, whatever version a request asks for (a
+        // custom `Protocol`; the crate's `MockTransport::single()`): requests that wait on an
+        // "HTTP/2" attempt are served one after the other, nobody may be stranded, the idle bound holds
+        let wt = Weights { h2_pct: 60, ..d.profile };
+        total.merge(run_generated(
+            ctx,
+            &engine,
+            "single-use-connections",
+            move || {
+                use proptest::strategy::Strategy;
+                case_strategy(wt, max_ops, cfg_any_strategy()).prop_map(|mut c| {
+                    c.cfg.single_use = true;
+                    c
+                })
+            },
+            ctx.cases(60_000, 1_500_000),
+            2000,
+        ));
+    }
     if d.prop == "C04" || d.prop == "C03" || d.prop == "C14" {
         // mixed-version churn on one origin: HTTP/1 and HTTP/2 requests, ALPN upgrades, failing dials and
         // handshakes, peer closes and cancels - the histories in which the "HTTP/2 attempt in flight"
@@ -185,6 +208,12 @@ pub fn run(ctx: &Ctx) -> i32 {
         // end to end with the real hyper connections: one HTTP/2 connection per origin
         let e2e = crate::props::net::NetEngine { prop: "C04" };
         total.merge(run_generated(ctx, &e2e, "netsim-h2-sharing", || crate::props::net::ordered(crate::props::net::c04_e2e_strategy(8)), ctx.cases(6_000, 300_000), 300));
+    }
+    if d.prop == "C05" || d.prop == "C15" {
+        // end to end in real time through Client::builder(): idle expiry and the idle bound with real
+        // hyper connections, requests that outlast the idle timeout, pauses on both sides of it
+        let rctx = Ctx { threads: 16, ..ctx.clone() };
+        total.merge(run_generated(&rctx, &crate::engines::rtpool::RtPoolEngine { prop: d.prop }, "real-time-client-e2e", crate::engines::rtpool::strategy, ctx.cases(160, 6_000), 30));
     }
     if d.prop == "C15" {
         // end to end: connections still open at an HTTP/1 origin after everything completed
